@@ -120,7 +120,7 @@ def main():
         res["checks"] = {}
         for cid in checks:
             t = time.time()
-            rc, out = sh("./check %s --tier quick" % cid, cwd=V, timeout=2400, env=dict(ENV, VERIF_REPO=wt))
+            rc, out = sh("./check %s --tier quick" % cid, cwd=V, timeout=2400, env=dict(ENV, VERIF_REPO=wt, VERIF_EVID_DIR=os.path.join(V, "build", "seed-evidence"), VERIF_REPLAY_DIR=os.path.join(V, "build", "seed-replays")))
             viol = [l for l in out.split("\n") if l.startswith("VIOLATION") or l.startswith("OK ") or l.startswith("KNOWN-FINDING")]
             keys = re.findall(r"violation \[([^\]]+)\]", out)
             res["checks"][cid] = dict(rc=rc, lines=viol[:5], keys=sorted(set(keys))[:10], wall=round(time.time() - t, 1),
